@@ -35,7 +35,7 @@ import slices  # noqa: E402
 
 TIER_BUDGET = {  # per-harness CBMC timeout (s), per-process address space (KB)
     "quick": (900, 12 * 1024 * 1024),
-    "thorough": (2700, 26 * 1024 * 1024),
+    "thorough": (2700, 14 * 1024 * 1024),
 }
 
 
@@ -671,9 +671,16 @@ def run_check(prop, tier, only, keep, jobs):
             log("[%s] extracting counterexample for %s" % (prop, h.name))
             # the trace-producing pass is several times slower than the verdict pass
             rc, out, data, wall = run_kani(scratch, h.file.crate, [h.name],
-                                           max(3 * max(timeout_s, h.timeout or 0), 3600), mem_kb * 2, 1,
+                                           max(3 * max(timeout_s, h.timeout or 0), 3600), 40 * 1024 * 1024, 1,
                                            playback=True, tag="pb-" + h.name)
             tests = extract_playback(out, h.name)
+            try:
+                ldir = os.path.join(os.environ.get("VERIF_EVIDENCE_DIR", os.path.join(VERIF, "evidence")), "logs")
+                os.makedirs(ldir, exist_ok=True)
+                with open(os.path.join(ldir, "%s.playback.log" % h.name), "w") as f:
+                    f.write(out[-200000:])
+            except Exception:
+                pass
             if not tests:
                 states[h.name] = ("inconclusive", "counterexample could not be extracted: " + why)
                 log("  no concrete playback test produced")
